@@ -3,6 +3,7 @@ import itertools
 
 import absint
 from core import type_head
+from roles import closure_result_under_variant
 from rules_build import ancestors
 from rules_protocol import guard_edges_on_call
 
@@ -289,6 +290,89 @@ def rule_file_checkers(ctx):
         R.ob('F1-openread-rewind', rw.path, good, 'OpenRead::rewind seeks the file variant back to the start' if good else 'OpenRead::rewind does not rewind an open file', ctx.where(rw), props=P)
     else:
         R.missing('F1', 'OpenRead::rewind', 'not found', props=P)
+    # F6: the content hash covers the whole file
+    OR = 'pie::resource::file::OpenRead'
+    for b in F.bodies.values():
+        if b.crate != 'pie' or b.is_test_code() or b.kind != 'AssocFn':
+            continue
+        news = b.find_calls(lambda c: c.qname == 'sha2::Digest::new')
+        readers = [i for i in range(1, b.argc + 1) if 'BufReader' in b.local_ty(i) or 'std::fs::File' in b.local_ty(i) or 'Read' in b.local_ty(i)]
+        if not news or not readers:
+            continue
+        cps = b.find_calls(lambda c: c.qname == 'std::io::copy')
+        good = len(cps) == 1 and all(o.kind == 'arg' and o.key in readers for o in b.orig_operand(cps[0].args[0])) and ctx.base_call_bbs(b.orig_operand(cps[0].args[1])) == {news[0].bb}
+        if good:
+            fin = b.find_calls(lambda c: c.qname == 'sha2::Digest::finalize')
+            good = len(fin) == 1 and ctx.base_call_bbs(b.orig_operand(fin[0].args[0])) == {news[0].bb} and b.must_before(fin[0].bb, ctx.both(ctx.infeasible(b), lambda n: n == cps[0].bb)) is None
+        R.ob('F6-whole-file', b.path, good, 'the digest is fed the whole reader (io::copy to EOF) and finalised afterwards' if good
+             else 'the content hash is not provably taken over the whole file (expected io::copy(reader, hasher) followed by finalize of that hasher)', ctx.where(b), props=P)
+    # F7: OpenRead helpers and construction per variant
+    want = {'exists': {'File', 'Directory'}, 'is_file': {'File'}, 'is_directory': {'Directory'}, 'as_metadata': {'File', 'Directory'}, 'as_file': {'File'}, 'as_directory': {'Directory'}}
+    table = F.enum_table(OR) or {}
+    n7 = 0
+    for name, w in want.items():
+        b = F.body_by_path(OR + '::' + name)
+        if b is None:
+            continue
+        n7 += 1
+        got = set()
+        und = False
+        for v in table.values():
+            r = closure_result_under_variant(b, OR, v)
+            if name in ('exists',):
+                # `!matches!(..)`: result is the negation of a flag; evaluate through the Not
+                r = _bool_result_under_variant(ctx, b, OR, v)
+            if r in ('yes', 'maybe'):
+                got.add(v)
+            elif r == 'unknown':
+                und = True
+        if und:
+            R.undecided('F7-openread', OR + '::' + name, 'cannot evaluate per variant', ctx.where(b), props=P)
+        else:
+            R.ob('F7-openread', OR + '::' + name, got == w, 'OpenRead::%s answers positively exactly for %s' % (name, sorted(w)) if got == w else 'OpenRead::%s answers positively for %s, expected %s' % (name, sorted(got), sorted(w)), ctx.where(b), props=P)
+    R.floor('F7', 'OpenRead helpers', n7, 4, props=P)
+    nb = F.body_by_path(OR + '::new')
+    if nb is not None:
+        inf = ctx.infeasible(nb)
+        built = {}
+        for l, ds in nb.defs.items():
+            for d in ds:
+                if d[0] == 'stmt' and d[3]['k'] == 'aggr' and d[3]['ak'].get('adt', '').endswith('OpenRead'):
+                    built[d[3]['ak']['variant']] = d[1]
+        good = set(built) == {'File', 'Directory', 'NonExistent'}
+        why = 'variants built: %s' % sorted(built)
+        if good:
+            req = {v: nb.edges_required_for(bb) for v, bb in built.items()}
+            md_none = any(gd.kind == 'enum' and gd.variants() == frozenset(['None']) and any(c.name == 'metadata' for c in gd.subject_calls()) for gd in req['NonExistent'])
+            is_file_t = any(gd.kind == 'bool' and gd.truth() is True and any(c.qname == 'std::fs::Metadata::is_file' for c in gd.subject_calls()) for gd in req['File'])
+            is_file_f = any(gd.kind == 'bool' and ((gd.truth() is False and any(c.qname == 'std::fs::Metadata::is_file' for c in gd.subject_calls())) or
+                                                   (gd.truth() is True and any(c.qname == 'std::fs::Metadata::is_dir' for c in gd.subject_calls()))) for gd in req['Directory'])
+            md_some_f = any(gd.kind == 'enum' and gd.variants() == frozenset(['Some']) for gd in req['File'])
+            good = md_none and is_file_t and is_file_f and md_some_f
+            why = 'NonExistent under metadata=None: %s; File under is_file: %s; Directory otherwise: %s' % (md_none, is_file_t, is_file_f)
+            opens = nb.find_calls(lambda c: c.qname == 'std::fs::File::open')
+            good = good and len(opens) == 1 and all(o.kind == 'arg' and o.key == 1 for o in nb.orig_operand(opens[0].args[0]))
+        R.ob('F7-openread-new', nb.path, good, 'a path is opened as NonExistent iff it has no metadata, as File iff it is a regular file (that very path is opened), as Directory otherwise' if good else why,
+             ctx.where(nb), props=P)
+    # F8: the content observer dispatches on the kind of path
+    hb = F.body_by_path('pie::resource::file::hash_checker::HashChecker::hash')
+    if hb is not None:
+        res = {}
+        for v in table.values():
+            def av(n, v=v):
+                if isinstance(n, tuple):
+                    gd = hb.guard_of(n[1], n[2])
+                    if gd is not None and gd.kind == 'enum' and gd.extra == OR:
+                        vs = gd.variants()
+                        return vs is not None and v not in vs
+                return False
+            seen = hb.reach([0], avoid=ctx.both(ctx.infeasible(hb), av))
+            res[v] = sorted({hb.calls[x].name for x in seen if not isinstance(x, tuple) and x in hb.calls and hb.calls[x].name.startswith('hash_')})
+        good = res == {'File': ['hash_file'], 'Directory': ['hash_directory'], 'NonExistent': []}
+        R.ob('F8-dispatch', hb.path, good, 'files are hashed by content, directories by listing, an absent path has no hash' if good else 'hash dispatch per kind of path: %s' % res, ctx.where(hb), props=P)
+        for c in hb.find_calls(lambda c: c.name == 'hash_directory'):
+            good = all(o.kind == 'arg' and o.key == 2 for o in hb.orig_operand(c.args[1]))
+            R.ob('F8-dir-path', hb.path, good, 'the listing hashed is that of the checked path' if good else 'another directory is listed', ctx.where(hb, c.bb), props=P)
     # F5 digest framing
     n = 0
     for b in F.bodies.values():
@@ -323,3 +407,40 @@ def rule_file_checkers(ctx):
                  else 'variable-length items are fed to the digest back to back: {"ab"} and {"a","b"} hash alike', ctx.where(b, var[0].bb), props=P)
     if have_hash:
         R.floor('F5', 'digest loops over variable-length items', n, 1, props=P)
+
+
+def _bool_result_under_variant(ctx, b, enum_ty, variant):
+    """Like roles.closure_result_under_variant, but understands `!flag` return values."""
+    def infeasible(n):
+        if isinstance(n, tuple):
+            g = b.guard_of(n[1], n[2])
+            if g is not None and g.kind == 'enum' and g.extra == enum_ty:
+                vs = g.variants()
+                return vs is not None and variant not in vs
+        return False
+    avoid, seen = b.refine(ctx.both(ctx.infeasible(b), infeasible))
+    live = frozenset(x for x in seen if not isinstance(x, tuple))
+    vals = set()
+    for d in b.defs.get(0, []):
+        if d[1] not in live or d[0] != 'stmt':
+            return 'unknown'
+        rv = d[3]
+        neg = False
+        if rv['k'] == 'un' and rv['uop'] == 'Not':
+            neg = True
+            op = b.facts.operand(rv['a'])
+        elif rv['k'] == 'use':
+            op = b.facts.operand(rv['op'])
+        else:
+            return 'unknown'
+        os_ = b.orig_operand(op, None, live)
+        for o in os_:
+            if o.kind != 'const':
+                return 'unknown'
+            v = o.key == '1'
+            vals.add((not v) if neg else v)
+    if vals == {True}:
+        return 'yes'
+    if vals == {False}:
+        return 'no'
+    return 'maybe' if vals else 'unknown'
